@@ -551,6 +551,53 @@ def phase_reclaim(c, tc, scratch, tier):
     return {"runs": n, "array_lengths": sizes}
 
 
+
+# ------------------------------------------------------------------------------------------------
+# Phase E: objects exactly at / around every size threshold of the allocators and collectors
+
+def phase_thresholds(c, tc, scratch, tier, libdirs):
+    quick = tier == "quick"
+    d = os.path.join(scratch, "thresholds")
+    os.makedirs(d)
+    src_text, expected, lens = fam_gcprogs.threshold_program(vcommon.REPO)
+    src = os.path.join(d, "thresholds.dora")
+    open(src, "w").write(src_text)
+    items = [((be, gc), src, be, gc) for be in ("cannon", "boots") for gc in ("copy", None, "sweep")]
+    exes, errs = compile_all(tc, items, libdirs=libdirs)
+    for key, err in errs.items():
+        c.violation("c03:thresholds-compile-failed:%s" % key[0], "threshold-array program does not compile: %s" % err[-300:],
+                    {"stderr": err[-2000:], "source": src_text})
+    base = "--max-heap-size 16M --gc-young-size 1M --gc-worker 1"
+    flagsets = [base + " --gc-verify", base + " --disable-tlab --gc-verify"]
+    if not quick:
+        flagsets += ["--max-heap-size 32M --gc-young-size 4M --gc-worker 2 --gc-verify", base + " --gc-stress-minor"]
+    runs = []
+    for key, pair in exes.items():
+        if pair is None:
+            continue
+        for fl in flagsets:
+            runs.append((key, pair["debug"], fl, "debug"))
+        runs.append((key, pair["fast"], "--max-heap-size 32M --gc-young-size 4M --gc-worker 2 --gc-verify", "fast"))
+
+    def work(run):
+        key, exe, fl, rt = run
+        return run, core.run_exe(exe, [], flags=fl, timeout=600)
+    n = 0
+    for (key, exe, fl, rt), r in core.parallel(work, runs):
+        n += 1
+        if r["timeout"] or r["signal"] is not None or r["code"] != 0 or r["out"] != expected:
+            got = r["out"].splitlines()
+            want = expected.splitlines()
+            first = next((i for i in range(len(want)) if i >= len(got) or got[i] != want[i]), None)
+            what = "line %s: got %r, expected %r" % (first, got[first] if first is not None and first < len(got) else None,
+                                                      want[first] if first is not None else None)
+            c.violation("c03:thresholds:%s:%s" % (key[0], gname(key[1])),
+                        "arrays at the size thresholds [%s, gc=%s, %s runtime, %s]: %s; %s %s" % (
+                            key[0], gname(key[1]), rt, fl, core.ending(r), what, core.first_err_line(r)),
+                        {"phase": "thresholds", "backend": key[0], "gc": key[1], "flags": fl, "runtime": rt, "source": src_text,
+                         "stdout": r["out"][-1500:], "stderr": r["err"][-3000:], "expected": expected})
+    return {"runs": n, "array_lengths": lens, "thresholds_bytes": fam_gcprogs.thresholds(vcommon.REPO)[0]}
+
 # ------------------------------------------------------------------------------------------------
 
 def main(tier):
@@ -561,7 +608,7 @@ def main(tier):
     tc = core.Toolchain(plain, fast)
     tc_inj = core.Toolchain(inject, fast)
     scratch = vcommon.scratch_dir("c03")
-    only = os.environ.get("VERIF_C03_PHASES", "ABCD")
+    only = os.environ.get("VERIF_C03_PHASES", "ABCDE")
     try:
         times = {}
 
@@ -575,7 +622,9 @@ def main(tier):
         b = timed("collection-points", phase_inject, c, tc_inj, scratch, tier) if "B" in only else {}
         cc = timed("corpus", phase_corpus, c, tc, scratch, tier) if "C" in only else {}
         dd = timed("reclaim", phase_reclaim, c, tc, scratch, tier) if "D" in only else {}
-        evals = a.get("graphs_checked", 0) + b.get("collection_points_enumerated", 0) + cc.get("runs", 0) + dd.get("runs", 0)
+        ee = timed("thresholds", phase_thresholds, c, tc, scratch, tier, {"debug": plain, "fast": fast}) if "E" in only else {}
+        evals = a.get("graphs_checked", 0) + b.get("collection_points_enumerated", 0) + cc.get("runs", 0) + dd.get("runs", 0) + \
+            ee.get("runs", 0) * len(ee.get("array_lengths", []))
         c.coverage = {
             "evaluations": evals,
             "distinct_nontrivial": a.get("configurations", 0) + b.get("collection_points_enumerated", 0) + cc.get("programs", 0),
@@ -587,7 +636,7 @@ def main(tier):
                         {"collection_point": "program 'tree' [boots, swiper] DORA_VERIF_GC_AT=17:minor,23:minor"},
                         {"corpus": "test/rt programs x collectors x stress/TLAB/worker/heap flag sets"}],
             "exhaustive": True,
-            "graphs": a, "collection_points": b, "corpus": cc, "reclamation": dd, "phase_seconds": times,
+            "graphs": a, "collection_points": b, "corpus": cc, "reclamation": dd, "threshold_arrays": ee, "phase_seconds": times,
         }
         c.assumptions = ["programs run single-threaded: schedules of multi-threaded allocators are outside this check (stop-the-world protocol: C04; "
                          "parallel termination: C12)",
